@@ -168,9 +168,9 @@ def r4_dispatch(ck, cx):
 
 def run(ck, tier):
     cx = Ctx()
-    r1_tables(ck, cx)
-    r2_r3_layouts(ck, cx)
-    r4_dispatch(ck, cx)
+    ck.guard(r1_tables, ck, cx)
+    ck.guard(r2_r3_layouts, ck, cx)
+    ck.guard(r4_dispatch, ck, cx)
     ck.assume('the arithmetic inside pack_bitstring / unpack_bitstring (LSB-first packing) and struct itself are in the trusted base; the rules prove every bit field goes through them')
     ck.assume('value ranges (e.g. addresses above 65535 raising struct.error) are not decided')
     return cx.idx
